@@ -1,0 +1,20 @@
+//go:build verif
+
+package compaction
+
+import "time"
+
+// VerifShift moves every recorded deletion time back by d: for everything the tracker knows, the clock has advanced by d.
+// Only compiled with -tags verif (verification tooling).
+func (t *TombstoneTracker) VerifShift(d time.Duration) {
+	t.mu.Lock()
+	defer t.mu.Unlock()
+	for k, ts := range t.deletions {
+		t.deletions[k] = ts.Add(-d)
+	}
+}
+
+// VerifTombstoneManager returns the coordinator's tombstone manager. Only compiled with -tags verif.
+func (c *DefaultCompactionCoordinator) VerifTombstoneManager() TombstoneManager {
+	return c.tombstoneManager
+}
